@@ -60,8 +60,66 @@ def schedule_search(ctx, prop, bad, lean_failed):
             ctx.defer_nfi("\n".join(body))
 
 
+COW_CLASSES = ["nodrop", "nodrop_big", "withdrop", "zst", "wide"]
+
+
+def cow_class_sweep(ctx, prop="C08", ops=("make_mut", "make_unique", "offset_make_mut")):
+    """the same abstract copy-on-write cases at every payload class (no drop glue but an observable `Clone`, drop glue,
+    zero-sized, over-aligned, large): the model is generic in the values, so its verdict — sole owner: same allocation,
+    `Clone` not called; shared: `Clone` called exactly once, fresh allocation with count 1, the old one loses one owner,
+    the other handles keep seeing the old value (Lean: C08_unique_in_place / C08_shared_redirects / C09_unwrap_or_clone)
+    — must carry over to every class, in the dev and the release profile."""
+    import subprocess
+    cases = [(c, o, n, k) for c in COW_CLASSES for o in ops for n in (1, 2, 3) for k in (("arc",) if n == 1 else ("arc", "offset", "union", "raw"))]
+    text = "".join("cow %s %s %d %s\n" % c for c in cases)
+    bad, ran = [], 0
+    for rel in (False, True):
+        exe, out = common.cargo_build_bin(ctx, "cow", release=rel)
+        if exe is None:
+            ctx.oblige("corr:cow-class-sweep-build", False, out[-1500:])
+            ctx.defer_nfi("the copy-on-write class sweep harness does not build against this tree:\n" + out[-2500:])
+            return
+        pr = subprocess.run([exe], input=text, capture_output=True, text=True, timeout=120)
+        lines = pr.stdout.split("\n")
+        for i, (c, o, n, k) in enumerate(cases):
+            l = lines[i] if i < len(lines) and lines[i] else "st=crash(rc=%s)" % pr.returncode
+            ran += 1
+            kv = dict(x.split("=", 1) for x in l.split() if "=" in x)
+            shared = n > 1
+            why = []
+            if kv.get("st") != "ok":
+                why.append("status %s" % kv.get("st"))
+            else:
+                if kv["clones"] != ("1" if shared else "0"):
+                    why.append("Clone::clone was called %s time(s), the model says %d" % (kv["clones"], 1 if shared else 0))
+                if kv["same_alloc"] != ("0" if shared else "1"):
+                    why.append("same allocation afterwards: %s, the model says %s" % (kv["same_alloc"], "no" if shared else "yes"))
+                if shared and c != "zst" and kv["gen"] != "1":
+                    why.append("the value the handle now refers to was not made by Clone (generation mark %s)" % kv["gen"])
+                if shared and kv["other"] != ("0" if c == "zst" else "5"):
+                    why.append("another handle sees %s instead of the old value" % kv["other"])
+                if shared and kv["old_cnt"] != str(n - 1):
+                    why.append("the old allocation reports count %s with %d owner(s) left" % (kv["old_cnt"], n - 1))
+                if o != "unwrap_or_clone" and kv["new_cnt"] != "1":
+                    why.append("the handle's allocation reports count %s" % kv["new_cnt"])
+                if o != "unwrap_or_clone" and c != "zst" and kv["mine"] != "9":
+                    why.append("the write is not visible through the handle itself (%s)" % kv["mine"])
+            if why:
+                bad.append(("cow %s %s %d %s" % (c, o, n, k), "release" if rel else "dev", l, why))
+    ctx.coverage["cow_class_sweep"] = {"cases": ran, "classes": COW_CLASSES, "ops": list(ops), "failures": len(bad)}
+    ctx.coverage["evaluations"] = ctx.coverage.get("evaluations", 0) + ran
+    ctx.oblige("corr:cow-class-sweep", not bad, "%d failing" % len(bad))
+    if bad:
+        body = ["copy-on-write over payload classes: the real crate vs the (value-generic) model and the property", ""]
+        for ln, prof, l, why in bad[:8]:
+            body += ["case : %s   [%s profile]" % (ln, prof), "  impl : " + l, "  PROPERTY %s FAILS: " % prop + "; ".join(why), ""]
+        body.append("replay: printf '<case line>\\n' | <harness bin cow>")
+        ctx.violation("ops", "\n".join(body), True)
+
+
 def run(ctx):
     facts, res, bad = schedule_part(ctx, "C08", PROGRAMS_QUICK)
+    cow_class_sweep(ctx)
     histcheck.run(ctx, MODULE, WEIGHTS, TAGS, lean_extra=EXTRA)
     if bad and not any(v["kind"] == "miri" for v in ctx.violations) and not getattr(ctx, "sched_handled", False):
         schedule_search(ctx, "C08", bad, [])
